@@ -317,9 +317,10 @@ def _components(mol):
     return out
 
 
+DERIVED_CONSTRUCTORS = ('augSub', 'augSubs', 'opAnd', 'opSub', 'opOr', 'copyDunder')
 REVALIDATING_OPS = {'addBond', 'delBond', 'delAtom', 'exitOk', 'substructure', 'fixStereo'}
 NEUTRAL_OPS = {'read', 'fixStereo', 'fixStructure', 'calcLabels', 'flush', 'enter', 'exitOk', 'setXY', 'setMeta', 'copy',
-               'substructure', 'union', 'split'}
+               'substructure', 'union', 'split'} | set(DERIVED_CONSTRUCTORS)
 
 
 def op_touched(op, mol_before):
@@ -499,6 +500,26 @@ class Flags:
         elif name in RELABEL_OPS and exc is None:
             self.renumbered.discard(o)
 
+    def returned(self, op, k):
+        """object k was returned by a derived constructor (split, augmented_substructure(s), &, -, |, copy.copy)"""
+        name, o = op[0], op[1]
+        if name == 'split':
+            self.h_copied.add(k)           # split copies hydrogens on purpose (recalculate_hydrogens=False)
+            if o in self.renumbered:
+                self.renumbered.add(k)
+        elif name in ('augSub', 'augSubs', 'opAnd', 'opSub'):
+            if o in self.h_copied:
+                self.h_copied.add(k)
+        elif name == 'opOr':
+            self.renumbered.add(k)
+            if o in self.h_copied or op[2] in self.h_copied:
+                self.h_copied.add(k)
+        elif name == 'copyDunder':
+            if o in self.renumbered:
+                self.renumbered.add(k)
+            if o in self.h_copied:
+                self.h_copied.add(k)
+
     def filter(self, j, st):
         if st is None:
             return None
@@ -576,10 +597,26 @@ def apply_op(objs, op):
             m.meta[a[1]] = a[2]
     elif name == 'read':
         read_key(m, a[1])
-    elif name == 'split':       # only in the property-level search: parts are appended
+    elif name == 'split':       # parts are appended (correspondence: expanded into read + substructure per component)
         parts = m.split()
         objs.extend(parts)
         created = len(objs) - 1 if parts else None
+    elif name in DERIVED_CONSTRUCTORS:   # the other public operations that RETURN molecules (oracle only): results appended
+        import copy as _copy
+        if name == 'augSub':
+            res = [m.augmented_substructure(list(a[2]), deep=a[1])]
+        elif name == 'augSubs':
+            res = list(m.augmented_substructures(list(a[2]), deep=a[1]))
+        elif name == 'opAnd':
+            res = [m & list(a[1])]
+        elif name == 'opSub':
+            res = [m - list(a[1])]
+        elif name == 'opOr':
+            res = [m | objs[a[1]]]
+        elif name == 'copyDunder':
+            res = [_copy.copy(m)]
+        objs.extend(res)
+        created = len(objs) - 1 if res else None
     elif name in BULK_OPS:      # bulk edits: only in the property-level search (not modelled)
         getattr(m, name)()
     else:
@@ -611,6 +648,36 @@ def run_real(seed_mol, ops):
             rec.calls.clear()
             exc = None
             created = None
+            if op[0] == 'split':
+                # `split()` is `[self.substructure(c, recalculate_hydrogens=False) for c in self.connected_components]`
+                # (regenerated fact `splitPerComponent`; any other shape is a translator error): the real call is made once and
+                # compared with the model's read of `connected_components` followed by one `substructure` per component
+                o = op[1]
+                m = objs[o]
+                base = len(objs)
+                try:
+                    parts = m.split()
+                    comps = [list(c) for c in m.connected_components]
+                except Exception:
+                    break
+                objs.extend(parts)
+                note = None if len(parts) == len(comps) else f'split() returned {len(parts)} molecules for {len(comps)} components'
+                for k in range(-1, len(comps) if note is None else 0):
+                    vis = objs[:base + k + 1]
+                    if k < 0:
+                        sub_op, tgt, crt = ['read', o, 'connected_components'], m, None
+                    else:
+                        sub_op, tgt, crt = ['substructure', o, 0, comps[k]], parts[k], base + k
+                        flags.update(sub_op, crt, None)
+                    recs.append({'op': sub_op, 'outcome': 'ok', 'created': crt, 'note': note if k < 0 else None,
+                                 'recalc': sorted({n for i, n in rec.calls if i == id(tgt)}) if k >= 0 else [],
+                                 'obs': keys_of(tgt), 'objs': [observe(x) for x in vis],
+                                 'stale': [flags.filter(j, staleness(x)) if quiescent(x) and symmetric(x) else None
+                                           for j, x in enumerate(vis)],
+                                 'sym': [symmetric(x) for x in vis], 'wf': [symmetric_all(x) for x in vis]})
+                if note is not None:
+                    break
+                continue
             try:
                 created = apply_op(objs, op)
             except Exception as e:  # noqa
@@ -665,6 +732,9 @@ def compare(recs, blocks):
             break
         m = parse_model_block(blk)
         tag = f'op {i} {r["op"]}'
+        if r.get('note'):
+            diffs.append(f'{tag}: {r["note"]}')
+            break
         if m['outcome'] != r['outcome']:
             diffs.append(f'{tag}: outcome real {r["outcome"]} model {m["outcome"]}')
             break
@@ -725,14 +795,27 @@ def random_op(rng, objs, intxn, malformed=False, allow_skip=True):
     skip = 0  # _skip_calculation is private API: only in the finding traces
     choices = ['addAtom', 'addBond', 'addBond', 'delAtom', 'delBond', 'remap', 'copy', 'substructure', 'union', 'fixStructure',
                'calcLabels', 'fixStereo', 'cleanStereo', 'flush', 'txn', 'txn', 'attr', 'setXY', 'setMeta', 'read', 'read',
-               'read', 'read']
+               'read', 'read', 'split']
+    huge = 10 ** 9
     for _ in range(20):
         c = rng.choice(choices)
         if malformed and rng.random() < 0.5:
             c = rng.choice(['badBond', 'badDelAtom', 'badDelBond', 'badAtom', 'badRemap', 'badSub', 'badUnion'])
         if c == 'addAtom':
             n = -1 if rng.random() < 0.6 else max(ids, default=0) + rng.randint(1, 5)
+            r = rng.random()
+            if r < 0.08 and 0 not in ids:
+                n = 0                                  # 0 is a valid atom number
+            elif r < 0.12:
+                n = huge + rng.randint(0, 5) if all(x < huge for x in ids) else max(ids) + 1
             return ['addAtom', o, rng.choice([6, 6, 7, 8, 9, 1]), n, skip]
+        if c == 'split' and not intxn[o] and len(objs) < 3 and ids:
+            try:
+                ncomp = m.connected_components_count
+            except Exception:
+                ncomp = 9
+            if len(objs) + ncomp <= 5:
+                return ['split', o]
         if c == 'addBond' and len(ids) >= 2:
             for _ in range(10):
                 a, b = rng.sample(ids, 2)
@@ -748,8 +831,17 @@ def random_op(rng, objs, intxn, malformed=False, allow_skip=True):
         if c == 'remap' and ids and not intxn[o]:
             k = rng.randint(1, min(3, len(ids)))
             src = rng.sample(ids, k)
-            if rng.random() < 0.5:
+            r = rng.random()
+            if r < 0.4:
                 dst = src[1:] + src[:1]   # permutation among themselves
+            elif r < 0.55 and (0 not in ids or 0 in src):
+                base = max(ids) + rng.randint(1, 4)
+                dst = [0] + [base + i for i in range(k - 1)]          # the new number 0
+            elif r < 0.65 and min(ids) > 0 and not intxn[o]:
+                src, dst = list(ids), [n - 1 for n in ids]           # shift down by one (0-based numbering)
+            elif r < 0.72:
+                base = max(max(ids), huge) + rng.randint(1, 4)
+                dst = [base + i for i in range(k)]                    # huge numbers
             else:
                 base = max(ids) + rng.randint(1, 4)
                 dst = [base + i for i in range(k)]
@@ -836,7 +928,7 @@ def gen_sequence(rng, seed_mol, length, malformed=False, allow_skip=True):
             created = apply_op(objs, op)
         except Exception:
             break
-        if created is not None:
+        while len(intxn) < len(objs):
             intxn.append(False)
         if op[0] == 'enter':
             intxn[op[1]] = True
@@ -885,6 +977,7 @@ def alphabet(mol):
         ops.append(['addBond', 0, nb[0], nb[1], 1, 0])
     if len(b) > 1:
         ops.append(['delBond', 0, b[-1][1], b[-1][0], 0])
+    ops += [['split', 0], ['remap', 0, [(a1, 0)]]]     # returned molecules of split(); the (falsy) atom number 0
     return ops
 
 
@@ -902,7 +995,7 @@ def admissible(seq):
             intxn = False
         elif op[0] in ('setCharge', 'setRadical') and not intxn:
             return False
-        elif op[0] in ('remap', 'copy', 'substructure') and intxn:
+        elif op[0] in ('remap', 'copy', 'substructure', 'split') and intxn:
             return False
     return True
 
@@ -987,6 +1080,70 @@ def one_step_edit_histories(smi):
         out.append([['delAtom', 0, x, 0]])
     for x, y, _ in m.bonds():
         out.append([['delBond', 0, x, y, 0]])
+    return out
+
+
+CONSTRUCTOR_SEEDS = ['CCO', 'CC(=O)O', 'C1CC1C', 'C[C@H](O)CC', 'C/C=C/CO', 'CCO.CN', '[Na+].[O-]CC', 'C1CC1.C[C@H](N)O', 'C[Mg]~Br']
+
+
+def constructor_histories(smi):
+    """every public operation that RETURNS molecules (copy, copy.copy, substructure, augmented_substructure(s), split, &, -,
+    |, union) on connected and on disconnected seeds, followed by ordinary edits of each returned object (the oracle checks
+    after every op that no other object changed, that no mutable state is shared and that the returned object is a new
+    one), then edits of the source (the returned objects must not change either)."""
+    m = fresh_seed(smi)
+    ids = list(m._atoms)
+    half = ids[:max(1, len(ids) // 2)]
+    comps = [sorted(c) for c in m.connected_components]
+    ctors = [[['copy', 0, 0, 0]], [['copy', 0, 1, 1]], [['copyDunder', 0]], [['split', 0]], [['substructure', 0, 1, ids]],
+             [['substructure', 0, 0, comps[0]]], [['augSub', 0, 1, ids[:1]]], [['augSubs', 0, 2, ids[:1]]], [['opAnd', 0, half]],
+             [['opOr', 0, 0]], [['union', 0, 0, 1, 1]]]
+    if len(ids) > 1:
+        ctors.append([['opSub', 0, ids[-1:]]])
+    out = []
+    for ctor in ctors:
+        try:
+            objs = [fresh_seed(smi)]
+            apply_op(objs, ctor[0])
+        except Exception:
+            continue
+        h = [['read', 0, '__cached_method___str__'], ['read', 0, 'connected_components']] + ctor
+        for k in range(1, len(objs)):            # edit every returned object
+            pids = list(objs[k]._atoms)
+            big = max(pids) + 1
+            h += [['addAtom', k, 7, -1, 0], ['addBond', k, pids[0], big, 1, 0], ['enter', k], ['setCharge', k, big, 1], ['exitOk', k]]
+            if len(pids) > 1:
+                h.append(['delAtom', k, pids[-1], 0])
+            h += [['remap', k, [(pids[0], big + 7)]], ['setXY', k, big, 3, 4], ['read', 0, '__cached_method___str__']]
+        # and the other way round: edit the source, the returned objects must stay
+        h += [['addAtom', 0, 8, -1, 0], ['delAtom', 0, ids[0], 0]] + [['read', k, '__cached_method___str__'] for k in range(1, len(objs))]
+        out.append(h)
+    return out
+
+
+NUMBERING_SEEDS = ['CCO', 'CC(=O)O', 'C1CC1CN', 'C=CC=O', 'CC[N+](C)(C)C.[Cl-]']
+
+
+def numbering_histories(smi):
+    """atom numbers at the edges of their domain in every operation that takes or makes numbers: 0 (valid, but falsy),
+    gaps, huge numbers — remap to / from 0, 0-based renumbering, add_atom(n=0 / huge), union with renumbering after that,
+    substructure / delete of atom 0; reads before and after so that stale caches show."""
+    m = fresh_seed(smi)
+    ids = list(m._atoms)
+    huge = 10 ** 9 + 7
+    maps = [[(n, n - 1) for n in ids], [(ids[-1], 0)], [(ids[0], 0)], [(n, n + huge) for n in ids], list(zip(ids, reversed(ids))),
+            [(ids[0], ids[1]), (ids[1], ids[0])], [(ids[-1], 99)], [(ids[0], huge)], [(ids[0], 0), (ids[1], huge)]]
+    rd = [['read', 0, k] for k in ('__cached_method___str__', 'sssr', 'connected_components', 'atoms_order')]
+    out = []
+    for mp in maps:
+        new = [dict(mp).get(n, n) for n in ids]
+        h = rd + [['remap', 0, mp]] + rd + [['addAtom', 0, 6, -1, 0], ['addBond', 0, new[0], max(new) + 1, 1, 0], ['copy', 0, 0, 0],
+                                           ['union', 0, 1, 1, 0]] + rd[:1] + [['substructure', 0, 1, new[:2]], ['delAtom', 0, new[0], 0]] + rd[:2]
+        out.append(h)
+        out.append([['remap', 0, mp], ['remap', 0, [(b, a) for a, b in mp]]] + rd[:2])       # and back
+    out.append(rd[:1] + [['addAtom', 0, 7, 0, 0], ['addBond', 0, 0, ids[0], 1, 0], ['addAtom', 0, 8, huge, 0], ['addAtom', 0, 6, -1, 0],
+                         ['addBond', 0, huge, huge + 1, 1, 0], ['remap', 0, [(0, huge + 5), (huge, 0)]], ['delAtom', 0, 0, 0]] + rd[:2])
+    out.append([['addAtom', 0, 7, 0, 0], ['copy', 0, 0, 0], ['union', 0, 1, 1, 1], ['substructure', 2, 1, [0, ids[0]]], ['delAtom', 0, 0, 0]])
     return out
 
 
@@ -1107,6 +1264,19 @@ def correspond(ctx):
         for h in txn_multi_edit_histories(smi):
             cases.append(('multi-edit', smi, h))
     run_batch(ctx, cases, 'neutral-anybond-multiedit')
+    # 0c''. atom numbers at the edge of their domain (0, gaps, huge) through remap / add_atom / union / substructure, and the
+    #       operations that return molecules (split expanded into its substructure calls) followed by edits of the results
+    cases = []
+    for smi in NUMBERING_SEEDS[:3 if ctx.quick else 5]:
+        for h in numbering_histories(smi):
+            cases.append(('numbering', smi, h))
+    model_ops = {'copy', 'split', 'substructure', 'union'}
+    for smi in CONSTRUCTOR_SEEDS[:5 if ctx.quick else 9]:
+        for h in constructor_histories(smi):
+            if not any(op[0] in DERIVED_CONSTRUCTORS for op in h):
+                cases.append(('constructors', smi, h))
+    run_batch(ctx, cases, 'numbering-constructors')
+    ctx.dist('numbering-constructor-histories', len(cases))
     # 0c'. ReactionContainer.copy independence (anchored file chython/containers/reaction.py; not part of the model)
     try:
         d = reaction_copy_independent()
@@ -1120,6 +1290,12 @@ def correspond(ctx):
     t1 = time.time()
     n_or = 0
     oracle_cases = []
+    # every public operation that returns molecules: the result is a new, independent, editable object (both directions);
+    # renumbering to / from 0 and huge numbers gives the documented numbers
+    for smi in ([CONSTRUCTOR_SEEDS[i] for i in (0, 3, 5, 8)] if ctx.quick else CONSTRUCTOR_SEEDS):
+        oracle_cases += [(smi, h) for h in constructor_histories(smi)]
+    for smi in NUMBERING_SEEDS[:1 if ctx.quick else 5]:
+        oracle_cases += [(smi, h) for h in numbering_histories(smi)]
     for smi in ALPHABET_SEEDS[:2] + DEPENDENT_STEREO_SEEDS + STEREO_SEEDS + ANY_SEEDS:
         try:
             hs = neutral_histories(smi)
@@ -1259,12 +1435,36 @@ def oracle(smi, ops):
         if name in ('calcLabels', 'flush', 'fixStructure') and False:
             return None
         exc, created = None, None
+        n_before = len(objs)
+        numbering_before = (list(objs[o]._atoms), [(n, m) for n, ms in objs[o]._bonds.items() for m in ms])
         try:
             created = apply_op(objs, op)
         except Exception as e:  # noqa
             exc = e
         oc = outcome_of(exc)
         flags.update(op, created, exc)
+        # every operation that returns molecules returns NEW objects: never the source, never an object handed out before
+        for k in range(n_before, len(objs)):
+            origin[k] = (o, name)
+            if exc is None:
+                flags.returned(op, k)
+            for j in range(k):
+                if objs[k] is objs[j]:
+                    return ('C13/not-independent/returned-object-is-source',
+                            f'op {i} {op}: the returned molecule #{k - n_before} IS object {j} itself (no new object was made)')
+        # renumbering: the documented result ("mapping of old numbers to the new"), stated without the model
+        if name == 'remap' and exc is None:
+            mp = dict(op[2])
+            want_atoms = [mp.get(n, n) for n in numbering_before[0]]
+            want_bonds = [(mp.get(n, n), mp.get(m, m)) for n, m in numbering_before[1]]
+            got_atoms = list(objs[o]._atoms)
+            got_bonds = [(n, m) for n, ms in objs[o]._bonds.items() for m in ms]
+            if got_atoms != want_atoms or got_bonds != want_bonds:
+                return ('C13/remap-differs-from-renumbering',
+                        f'op {i} {op}: atoms {numbering_before[0]} renumbered by {mp} must be {want_atoms}, are {got_atoms}'
+                        + ('' if got_bonds == want_bonds else f'; bonds must be {want_bonds[:6]}, are {got_bonds[:6]}'))
+        if name == 'addAtom' and exc is None and op[3] >= 0 and list(objs[o]._atoms) != numbering_before[0] + [op[3]]:
+            return ('C13/add_atom-number-ignored', f'op {i} {op}: atoms {numbering_before[0]} + atom {op[3]} are {list(objs[o]._atoms)}')
         if created is not None:
             origin[created] = (o, name)
             if name in ('copy', 'substructure') and exc is None and quiescent(objs[o]):
@@ -1437,6 +1637,12 @@ def search(ctx):
             try_case(smi, [['read', 0, '__cached_method___str__']] + ops + [['read', len(ops), '__cached_method___str__']])
     for smi in ARM_SEEDS:
         for h in one_step_edit_histories(smi):
+            try_case(smi, h)
+    for smi in CONSTRUCTOR_SEEDS:
+        for h in constructor_histories(smi):
+            try_case(smi, h)
+    for smi in NUMBERING_SEEDS:
+        for h in numbering_histories(smi):
             try_case(smi, h)
     for smi in ALPHABET_SEEDS + STEREO_SEEDS[:4] + ANY_SEEDS:
         for h in rollback_histories(smi) + neutral_histories(smi):
